@@ -17,6 +17,25 @@ def is_deepcopy_of(t, rhs) -> bool:
     return isinstance(t, tuple) and len(t) >= 4 and t[0] == 'call' and t[2] == DEEPCOPY and len(t[3]) >= 1 and t[3][0] == rhs
 
 
+def raw_occurrence(t, rhs) -> bool:
+    """Does rhs occur in t anywhere outside a copy.deepcopy(rhs) call?"""
+    t = freeze(t)
+    if is_deepcopy_of(t, rhs):
+        return False
+    if t == rhs:
+        return True
+    if isinstance(t, tuple):
+        return any(raw_occurrence(x, rhs) for x in t)
+    return False
+
+
+def has_deepcopy(t, rhs) -> bool:
+    t = freeze(t)
+    if is_deepcopy_of(t, rhs):
+        return True
+    return isinstance(t, tuple) and any(has_deepcopy(x, rhs) for x in t)
+
+
 def describe_value(t, rhs) -> str:
     t = freeze(t)
     if t == rhs:
@@ -114,6 +133,10 @@ def _check_paths(chk, R1, R2, fm, label, q, fi, paths, dest, rhs_of, need_store)
                 if v in used_copies:
                     problems2.append('`%s` stores the same copy a second time (two destinations share one object)' % e.text())
                 used_copies.append(v)
+                mine += 1
+                store_nodes.add(e.node)
+            elif om.mentions(v, rhs) and not raw_occurrence(v, rhs) and has_deepcopy(v, rhs):
+                # the copy combined with the current value (x = f(current, deepcopy(rhs))): still an independent value
                 mine += 1
                 store_nodes.add(e.node)
             elif om.mentions(v, rhs):
